@@ -17,6 +17,8 @@
 
 #include <nix/Platform.hpp>
 
+#include <algorithm>
+
 namespace nix {
 
 class NIXAPI DataSet {
@@ -89,8 +91,29 @@ void DataSet::setData(const T &value)
     DataType dtype = hydra.element_data_type();
     NDSize shape = hydra.shape();
 
+    // a write that is refused (e.g. numbers into a string array) must leave the
+    // array as it was: grow to cover the old and the new shape, write, and only
+    // then cut back to the new shape
+    const NDSize before = dataExtent();
+    if (before.size() != shape.size()) {
+        dataExtent(shape);
+        setData(dtype, hydra.data(), shape, {});
+        return;
+    }
+
+    NDSize both = shape;
+    for (size_t i = 0; i < both.size(); i++) {
+        both[i] = std::max(both[i], before[i]);
+    }
+
+    dataExtent(both);
+    try {
+        setData(dtype, hydra.data(), shape, NDSize(shape.size(), 0));
+    } catch (...) {
+        dataExtent(before);
+        throw;
+    }
     dataExtent(shape);
-    setData(dtype, hydra.data(), shape, {});
 }
 
 template<typename T>
